@@ -38,13 +38,13 @@ class ITPDirector(SectionLineParser):
                  'virtual_sites1': [0, 1],
                  'virtual_sites2': [0, 1, 2],
                  'virtual_sites3': [0, 1, 2, 3],
-                 'virtual_sites4': [slice(0, 5)],
+                 'virtual_sites4': [0, 1, 2, 3, 4],
                  'virtual_sitesn': [0, slice(2, None)],
                  'settles': [0],
                  'distance_restraints':  [0, 1],
-                 'dihedral_restraints':  [slice(0, 4)],
+                 'dihedral_restraints':  [0, 1, 2, 3],
                  'orientation_restraints': [0, 1],
-                 'angle_restraints': [slice(0, 4)],
+                 'angle_restraints': [0, 1, 2, 3],
                  'angle_restraints_z': [0, 1]}
 
     def __init__(self, force_field):
